@@ -152,7 +152,7 @@ impl BJudge {
         let geid = forge_request(src, a, 0, false, 0x02, &[]);
         let state_prefixes = vec![
             vec![],
-            vec![Event::Process(set_eid_req(src, a, 0, 0x5B))],
+            vec![Event::Process(set_eid_req(src, a, 0, 0x10))],
             vec![Event::SetEidResp(0x3C), Event::SetEidReq(0x3D)],
             vec![Event::SetUuid(U1)],
             vec![Event::Process(forge_request(src, a, 0, false, 0x06, &[0]))],
@@ -168,6 +168,7 @@ impl BJudge {
                 Event::Encode { call: EncCall::Vendor { fmt: 0, data: 0x1AF4, num: 1, msg: vec![0x51; 4] }, dst: 0x34 },
                 Event::Encode { call: EncCall::RespMsgTypes { cc: 0, types: vec![0xBB; 30] }, dst: 0x34 },
             ],
+            vec![Event::Encode { call: EncCall::Vendor { fmt: 1, data: 0x0000_1AF4, num: 1, msg: vec![0x56; 4] }, dst: 0x34 }, Event::Encode { call: EncCall::ReqGetEid, dst: 0x34 }],
         ];
         BJudge { prop: prop.to_string(), m, probe_pkts, small_events, calls, small_calls, state_prefixes, enc_prefixes, filter: state_filter(prop), n_judged: 0, n_calls: 0 }
     }
@@ -221,6 +222,7 @@ impl BJudge {
     /// `echo`: a packet context A has just handled (if it carried a right PEC):
     /// B is handed the same packet with one byte damaged and the old PEC.
     fn judge(&mut self, level: Level, echo: Option<&[u8]>) -> Vec<String> {
+        use crate::refmodel::forge_request;
         let mut out = vec![];
         let prop = self.prop.clone();
         if prop == "C19" {
@@ -265,11 +267,43 @@ impl BJudge {
                         out.push(format!("context B (set-up #{}), {}: {}", pi, kind, d));
                     }
                 }
+                // ... and B repeats what it encoded itself before the other context acted
+                for ev in p.iter() {
+                    if let Event::Encode { call, dst } = ev {
+                        let j = encprops::judge_encseq(&prop, &cfg, p, call, *dst, false, false);
+                        self.n_judged += 1;
+                        self.n_calls += 2 + p.len() as u64;
+                        for (kind, d) in j.viols {
+                            out.push(format!("context B (set-up #{}) repeating its own {}: {}: {}", pi, call.name(), kind, d));
+                        }
+                    }
+                }
             }
         } else {
             let alphabet = self.m.alphabet.clone();
             let prefixes = self.state_prefixes.clone();
             if level == Level::Full {
+                // minimal-length control messages of every kind from the peers the encoders talk to
+                // (a judgement that reads a body byte because of something *another* context did)
+                let mut short = vec![];
+                for from in [crate::props::dec::SRC, 0x34u8] {
+                    for cmd in 0..=0x15u8 {
+                        for dl in 0..=2usize {
+                            short.push(Event::Process(crate::refmodel::forge_response(from, self.m.cfg.addr, 0, cmd, 0, &vec![0u8; dl])));
+                            short.push(Event::Decode(crate::refmodel::forge_request(from, self.m.cfg.addr, 0, false, cmd, &vec![0u8; dl])));
+                        }
+                    }
+                }
+                self.eval_seq(&[], &short, false, &mut out);
+                // every selector right after the other context acted, from every set-up (a requester
+                // following the selector this context handed out before)
+                let nsets = self.m.cfg.vendors.len() as u8;
+                for p in &prefixes {
+                    for sel in 0..nsets {
+                        let ev = Event::Process(forge_request(crate::props::dec::SRC, self.m.cfg.addr, 0, false, 0x06, &[sel]));
+                        self.eval_state(p, std::slice::from_ref(&ev), &[0], &mut out);
+                    }
+                }
                 for p in &prefixes {
                     for i in 0..alphabet.len() as u8 {
                         self.eval_state(p, &alphabet, &[i], &mut out);
@@ -338,7 +372,11 @@ pub fn child(prop: &str, lo: usize, hi: usize, no_a: bool, deep: bool) -> i32 {
     let a = Rc::new(RefCell::new(owned.ctx()));
     // a second "other" context with another own address and configuration (a memo keyed on
     // everything but the device's own address only shows between devices that differ in it)
-    let cfg2 = Cfg { addr: 0x51, msg_types: vec![0x7E], vendors: vec![(1, 0x0000_8086, 7)] };
+    let cfg2 = Cfg {
+        addr: 0x51,
+        msg_types: cfg.msg_types.iter().map(|t| t ^ 0x55).collect(),
+        vendors: cfg.vendors.iter().map(|v| (1 - v.0, v.1 ^ 0x0F0F, v.2 ^ 0x00FF)).collect(),
+    };
     let owned2: &'static Owned = Box::leak(Box::new(Owned::new(&cfg2)));
     let a2 = Rc::new(RefCell::new(owned2.ctx()));
     let cur = Rc::new(Cell::new(lo));
